@@ -1,5 +1,5 @@
 CH = "crates/tower-resilience-chaos/src/"
-MUT = [("sub", "R16-mut-self", r"\bself\b", "self_", None), ("inject", None, "start", "let mut self_ = self;")]
+MUT = [("sub", "R16-mut-self", r"\bself\b", "self_", -1), ("inject", None, "start", "let mut self_ = self;")]
 LISTEN = ("wrapcalls", "R6-closure-wrap", r"FnListener::new", "vx_wrap::<Listener>()", 1)
 CLAMP = ("sub", "R14-clamp", r"\b(_?rate)\.clamp\(0\.0, 1\.0\)", r"vx_clamp01(\1)", 1)
 INTO = ("sub", "R6-into", r"\bname\.into\(\)", "name", 1)
